@@ -9,6 +9,7 @@
 
 use crate::engine::{bytes_json, Ctx, Report, Violation};
 use crate::fam::{Family, Kind};
+use crate::model::domains;
 use crate::model::wmethod::{syms_to_bytes, Suite};
 use crate::model::Refs;
 use serde_json::{json, Value};
@@ -214,6 +215,19 @@ pub fn cases(refs: &Refs, quick: bool, warm: bool) -> Vec<Case> {
 			"s:\u{FFFD}", "s:\u{10FFFD}", "s:\u{202E}", "//é@é/é?é#é", "s:/\u{1F600}", "a b", "s:a b", "s:%", "s:%4", "s:%41", "s:%zz", "", "#", "?", "s:", ":", "1:", "s://[::1]:80/", "s://[::1/", "s://h:8x/",
 		] {
 			texts.insert(extra.to_string());
+		}
+		// special scalars (white space that trim() strips, BOM, bidi / zero-width controls, case-mapping
+		// oddities, block boundaries) in first, inner and last position
+		for x in domains::special_scalars() {
+			for tpl in ["X", "s:X", "Xa", "s:aX", "s:aXa", "//X", "s://h/p?X", "s:#X"] {
+				texts.insert(tpl.replace('X', &x.to_string()));
+			}
+		}
+		// literals around 64 / 128 / 256 bytes, with a multi-byte character straddling every offset
+		for l in (58usize..=70).chain(124..=130).chain(252..=258) {
+			texts.insert(format!("s:{}", "a".repeat(l)));
+			texts.insert(format!("s:{}é{}", "a".repeat(l), "b"));
+			texts.insert(format!("s:{}{}", "a".repeat(l), '\u{10000}'));
 		}
 		// every literal with an upper-case hex digit in a %XX triplet also in lower case (and one
 		// mixed-case variant): the constant must keep the spelling
